@@ -142,7 +142,7 @@ fn builder_words<'a>(rng: &mut Rng, lex: &'a Lexicon) -> Vec<&'a str> {
 }
 
 pub fn run(ctx: &Ctx) -> Outcome {
-    let n_cases = ctx.n(200_000, 6_000_000);
+    let n_cases = ctx.n(600_000, 12_000_000);
     let mut rep = run_sharded(ctx, |w, nw, rep| {
         let ls = LangSet::new();
         let facades: Vec<Box<dyn Api>> = LANGS.iter().map(|c| api::facade(c)).collect();
